@@ -179,6 +179,10 @@ def corpus():
                   b"--- /dev/null\n+++ b/g\n@@ -0,0 +1 @@\n+new\n--- a/g\n+++ /dev/null\n@@ -1 +0,0 @@\n-other\n"))
     # misordered hunks
     out.append(mk({b"f": F(body)}, b"--- a/f\n+++ b/f\n@@ -6,2 +6,2 @@\n f\n-g\n+G\n@@ -2,2 +2,2 @@\n b\n-c\n+C\n"))
+    # names that are not UTF-8: the reject is <name>.rej byte for byte (was: the extension went through to_string_lossy)
+    out.append(mk({b"f.\xff": F(body), b"d/\xe9t\xe9.c": F(body)},
+                  b'--- "a/f.\\377"\n+++ "b/f.\\377"\n@@ -1,2 +1,2 @@\n a\n-X\n+B\n'
+                  b'--- "a/d/\\351t\\351.c"\n+++ "b/d/\\351t\\351.c"\n@@ -1,2 +1,2 @@\n a\n-X\n+B\n'))
     # reject of a file in a directory that this push creates (was: bypassed) / that this push empties
     w = {"files": {b"g": F(b"x\n")}, "dirs": [], "applied": None, "series": b"p1.patch\np2.patch\n",
          "patches": {b"p1.patch": b"--- /dev/null\n+++ b/d/x\n@@ -0,0 +1 @@\n+x\n", b"p2.patch": b"--- a/d/y\n+++ b/d/y\n@@ -1 +1 @@\n-q\n+r\n"}}
